@@ -299,7 +299,8 @@ class RunoutMonitor(Monitor):
 
 
 def make_monitors():
-    return [driver.Observer(0.1), driver.KnownCardsRule(), RunoutMonitor()]
+    return [driver.Observer(0.1), driver.KnownCardsRule(),
+            driver.BoardGrowthRule(), RunoutMonitor()]
 
 
 def gen_kwargs(rng):
